@@ -269,6 +269,33 @@ func min(a, b int) int {
 }
 
 // c09JSONInput produces documents around the valid encoding of a struct.
+// c09Scalar is JSON scalar text in the forms a peer may legally (or almost legally) write:
+// integers and decimals with 0..18 fraction digits, exponents, signs, leading zeros,
+// and strings holding hex / timestamps / numbers.
+func c09Scalar(r *core.RNG) string {
+	switch r.Intn(8) {
+	case 0:
+		return "\"" + string(c09TextInput(r, r.Intn(40))) + "\""
+	case 1:
+		return []string{"null", "true", "false", "[]", "{}", "\"\"", "1e999", "-0", "0.0", "1E+2", "18446744073709551616", "4294967296", "4294.967296", "-1e-400"}[r.Intn(14)]
+	}
+	var sb strings.Builder
+	if r.Chance(1, 6) {
+		sb.WriteByte('-')
+	}
+	sb.WriteString([]string{"0", "1", "868", "4294", "2400", "100", "00", "123456789012", "9"}[r.Intn(9)])
+	if n := r.Intn(20); n > 0 && r.Chance(4, 5) {
+		sb.WriteByte('.')
+		for i := 0; i < n; i++ {
+			sb.WriteByte(byte('0' + r.Intn(10)))
+		}
+	}
+	if r.Chance(1, 5) {
+		sb.WriteString([]string{"e0", "e3", "E-3", "e+10", "e-7", "e6", "E", "e"}[r.Intn(8)])
+	}
+	return sb.String()
+}
+
 func c09JSONInput(r *core.RNG, k int) []byte {
 	v := c17Structs[k%len(c17Structs)]()
 	var pat strings.Builder
@@ -277,7 +304,42 @@ func c09JSONInput(r *core.RNG, k int) []byte {
 	if err != nil {
 		doc = []byte("{}")
 	}
-	switch r.Intn(10) {
+	switch r.Intn(12) {
+	case 10, 11:
+		// a bare scalar (the scalar types), or one scalar of the document replaced by it
+		sc := c09Scalar(r)
+		if r.Bool() {
+			return []byte(sc)
+		}
+		str := string(doc)
+		var idx []int
+		for i := 0; i+1 < len(str); i++ {
+			if str[i] == ':' && (str[i+1] >= '0' && str[i+1] <= '9' || str[i+1] == '"' || str[i+1] == '-') {
+				idx = append(idx, i+1)
+			}
+		}
+		if len(idx) == 0 {
+			return []byte(sc)
+		}
+		st := idx[r.Intn(len(idx))]
+		en := st + 1
+		if str[st] == '"' {
+			for en < len(str) && str[en] != '"' {
+				if str[en] == '\\' {
+					en++
+				}
+				en++
+			}
+			en++
+		} else {
+			for en < len(str) && str[en] != ',' && str[en] != '}' && str[en] != ']' {
+				en++
+			}
+		}
+		if en > len(str) {
+			en = len(str)
+		}
+		return []byte(str[:st] + sc + str[en:])
 	case 0:
 		return doc
 	case 1:
